@@ -132,6 +132,10 @@ func (vc *FuncVC) call(b *ssa.BasicBlock, idx int, ins ssa.Instruction, c *ssa.C
 		}
 		args = append(args, vc.val(a))
 		argTypes = append(argTypes, a.Type())
+		if isContextType(a.Type()) && con != nil && !con.Extern {
+			// the callee (a repository function under contract) assumes its context parameter is not nil
+			vc.safetyOb("nilctx", "nil context passed to "+shortCallee(key), pos, reach, Not(Eq(vc.val(a), Term{"nil_iface", SIface})))
+		}
 	}
 	// parameter names
 	if sc := c.StaticCallee(); sc != nil && len(sc.Params) == len(c.Args) && !(con != nil && len(con.ParamNames) > 0) {
